@@ -314,3 +314,23 @@ def two_sided_oxygen(rng, n):
             a, b = a + "." + r + "C", b + "." + r + "C"
         out.append(("both_o|%d" % i, a + ">>" + b))
     return out
+
+
+def h2_on_reactant_side(rng, n):
+    """molecular hydrogen / explicit-H molecules written among the reactants of a reaction that
+    still needs a composition-determined completion (text contains '.[H]' only for some orders)"""
+    skel = [("CC(=O)Cl", "CC=O"), ("CCBr", "CC"), ("c1ccccc1I", "c1ccccc1"), ("CC(=O)OC", "CCO.CO"),
+            ("CC#N.O", "CC(N)=O"), ("ClCCCl", "CCCl"), ("CS(=O)(=O)OCC", "CC")]
+    hs = ["[H][H]", "[H][H]", "[H]Cl", "[H]O[H]", "[2H][2H]"]
+    out = []
+    for i in range(n):
+        a, b = rng.choice(skel)
+        h = rng.choice(hs)
+        r = rng.choice(R_GROUPS)
+        parts = a.split(".") + [h]
+        if rng.random() < 0.5:
+            parts.append(r + "C")
+            b = b + "." + r + "C"
+        rng.shuffle(parts)
+        out.append(("h2|%s|%d" % (h, i), ".".join(parts) + ">>" + b))
+    return [(t, s) for t, s in out if oracle.in_domain_rsmi(s)]
